@@ -484,6 +484,12 @@ func (h *httpHandler) writeResponse(
 	switch ct {
 	case MimeTypeDoH:
 		buf, err = resp.Pack()
+		if err == nil && len(buf) > dns.MaxMsgSize {
+			// The padding is added after the truncation, so the message may
+			// have grown beyond the maximum size of a DNS message.
+			err = fmt.Errorf("buffer too large: %d bytes", len(buf))
+		}
+
 		w.Header().Set(httphdr.ContentType, MimeTypeDoH)
 	case MimeTypeJSON:
 		buf, err = dnsMsgToJSON(resp)
